@@ -65,14 +65,18 @@
                   checks it per run), and anything when S_(NSIG-1) = S_NSIG (the noise subspace is then a choice of the SVD routine; only the first four
                   theorems, about the exhibited pair, apply).  The AIC/MDL argmin is one natural number on both sides (S is equal by theorem).
                   Over the generated table (tools/props/_c04_theorems.v.in): class_rotation_subspace class_mirror_subspace routing_subspace.
+     Daniell      daniell_shift_presmoothing daniell_mirror_presmoothing: DaniellPeriodogram applies its smoother to the rolled / mirrored periodogram
+                  (nothing more is true: Example daniell_not_a_rotation)
+     correlogram, real data   over the generated table: correlogram_fold (what pcorrelogram stores for real data is twosided_2_onesided of what it
+                  stores for the same spectrum declared complex: bins 0 and NFFT/2 kept, the others doubled)
    Hypotheses that are not decoration: conjugation / real-path theorems divide, so they assume the quantities the code divides
    by are nonzero (N, N-k, mean power for 'coeff', the error powers / Burg denominators of the executed stages) -- conj(a/0)
    is not determined in an abstract field and the code produces inf/nan there.
 
    NOT PROVED (search on the implementation only): that arcovar_marple / scipy lstsq inside arma_estimate are equivariant (they are
    the oracles [lsm], [lsq] of the model: hypothesis of the theorems, proved for the executable solver); for pmusic / pev: that numpy's svd meets
-   [svd_spec], and the degenerate case S_(NSIG-1) = S_NSIG; real-data correlogram (twosided_2_onesided: bins 0 and NFFT/2 are not doubled -- not a
-   clause of the statement), pdaniell (decimating smoother: no rotation by m bins on its output grid -- daniell_shift_presmoothing /
+   [svd_spec], and the degenerate case S_(NSIG-1) = S_NSIG; "twice the first half" for the real-data correlogram (false at bins 0 and NFFT/2: correlogram_fold;
+   not a clause of the statement), pdaniell (decimating smoother: no rotation by m bins on its output grid -- daniell_shift_presmoothing /
    daniell_mirror_presmoothing state what is true: the smoother is applied to the rolled / mirrored periodogram; Example daniell_not_a_rotation
    shows the output is not a rotation); arma2psd with norm=True.  scipy.linalg.lstsq is represented by the
    executable solver ls_solve (any solver of the normal equations agrees with it on full-rank data: C09). *)
